@@ -842,6 +842,16 @@ fn simplify(c: &Case) -> Vec<Case> {
     v
 }
 
+/// libFuzzer entry: the input bytes are the entropy tape (little-endian u32 words); same
+/// generator, same oracle as the proptest tiers.
+#[allow(dead_code)]
+pub fn fuzz_bytes(data: &[u8]) {
+    let tape = fv::tape::words_from_bytes(data, TAPE_LEN);
+    let case = decode_with(&mut Tape::new(&tape), &params(Tier::Quick));
+    engine::fuzz_one("C18", &case, &render, &check);
+}
+
+#[allow(dead_code)]
 fn main() -> std::process::ExitCode {
     let mut spec = Spec::new(
         "C18",
